@@ -6,6 +6,7 @@ P=/verif/seeded/$SEED/patch.diff; [ -f /verif/seeded/$SEED/patch_on_fixed_tree.d
 cd /verif && ./check $PROP --tier $TIER > /tmp/try_$SEED.$PROP.log 2>&1; RC=$?
 cp /verif/evidence/$PROP.json /tmp/try_$SEED.$PROP.evidence.json 2>/dev/null
 cd /repo && git checkout -- .
+git -C /verif checkout -- evidence/$PROP.json 2>/dev/null  # the evidence file of a run on a changed tree is not kept
 echo "seed=$SEED prop=$PROP tier=$TIER exit=$RC"
 grep -c "^VIOLATION" /tmp/try_$SEED.$PROP.log
 grep "^VIOLATION" /tmp/try_$SEED.$PROP.log | head -5 | cut -c1-400
